@@ -199,12 +199,37 @@ class HarnessError(Exception):
     pass
 
 
+class CaseTimeout(BaseException):
+    """a single case exceeded the per-case budget: the case is inconclusive (counted), never a violation"""
+
+
+CASE_TIMEOUT_S = [0]      # set by the runner from the check module's CASE_TIMEOUT_S
+
+
+def _alarm(signum, frame):
+    raise CaseTimeout()
+
+
 def run_check(check, case):
     """Run check(case) -> Res; exceptions raised from inside AegeanTools that
     the check did not anticipate become 'no-exception' violations, anything
     else is a harness error."""
+    import signal
+    budget = CASE_TIMEOUT_S[0]
     try:
-        res = check(case)
+        if budget:
+            signal.signal(signal.SIGALRM, _alarm)
+            signal.alarm(int(budget))
+        try:
+            res = check(case)
+        finally:
+            if budget:
+                signal.alarm(0)
+    except CaseTimeout:
+        res = Res()
+        res.label("inconclusive-case-timeout")
+        res.ambiguous += 1
+        return res
     except HarnessError:
         raise
     except Exception as e:  # noqa
@@ -294,6 +319,8 @@ def matches(entry, prop, viol):
     if "test" in m and m["test"] != viol["test"]:
         return False
     if "clause" in m and m["clause"] != viol["clause"]:
+        return False
+    if "clause_prefix" in m and not str(viol["clause"]).startswith(m["clause_prefix"]):
         return False
     tags = viol.get("tags", {})
     for k, v in m.get("tags", {}).items():
